@@ -1,10 +1,11 @@
-import YaclibModel.Proofs.CoSharedMutex
+import YaclibModel.Proofs.CoSharedMutexS_twCasFail_1
+import YaclibModel.Proofs.CoSharedMutexS_twCasFail_2
 namespace Yaclib.CoSharedMutex
 
-set_option maxHeartbeats 4000000 in
 theorem inv_twCasFail {cfg : Cfg} {s : State} (hi : Inv cfg s) (c : Cid) (h : s.pc c = .twLoaded) (hne : ¬ (s.W = 0 ∧ s.R = 0)) :
     Inv cfg ((failW s c)) := by
-  cases hi
-  by_cases ht' : curOp s c = .tryWr <;> simp only [failW, ht', ↓reduceIte] <;> sm_auto [List.count_le_length]
+  by_cases ht' : curOp s c = .tryWr
+  · exact inv_twCasFail_1 hi c h hne ht'
+  · exact inv_twCasFail_2 hi c h hne ht'
 
 end Yaclib.CoSharedMutex
